@@ -521,12 +521,14 @@ def relocated_loader(seed):
     return bytes(prog), done, payload
 
 
-def tzx_from_tap(tap, extra_blocks):
+def tzx_from_tap(tap, extra_blocks, last_pause=1000):
+    """last_pause: pause (ms) after the last block of the TAP file (the others get the usual 1000)."""
     out = bytearray(b'ZXTape!\x1a\x01\x14')
     i = 0
     while i < len(tap):
         n = tap[i] + 256 * tap[i + 1]
-        out += bytes((0x10, 0xE8, 0x03, n & 255, n >> 8)) + tap[i + 2:i + 2 + n]
+        ms = 1000 if i + 2 + n < len(tap) else last_pause
+        out += bytes((0x10, ms & 255, ms >> 8, n & 255, n >> 8)) + tap[i + 2:i + 2 + n]
         i += 2 + n
     for b in extra_blocks:
         out += b
@@ -546,9 +548,94 @@ def turbo_block(payload, pilot=2100, sync1=650, sync2=720, zero=800, one=1600, n
 
 TAPES = ('k48', 'k48clear', 'turbo', 'k128')
 
+# --------------------------------------------------------------------------- dawdle tapes
+# A multi-block tape whose loader program waits between blocks: bin2tap's BASIC loader and code block (the
+# program below), then a short headerless block with ROM timings that the program loads with CALL $0556
+# after the wait, then a block that is never loaded (so that the loaded block is not the last on the tape).
+# tap2sna keeps its clock on the tape's time line: when a block is fast-loaded the clock is set to the
+# block's last edge, and when a paused tape is resumed by the first port read to the block's first edge, so
+# a program that waited less / more than the block (or the gap before it) lasts makes the clock jump
+# forwards / backwards.
+FRAME = 69888
+DW_ORG = 0x8000
+DW_DEST = 0x9000
+DW_GAP_MS = 100             # pause between the code block and the headerless block
+DW_NPILOT = 2200            # pilot pulses of the headerless block (LD-BYTES waits about a second after the first edge, then needs 256 pulses)
+DW_INNER = 2687             # inner delay loop count: one outer iteration = 26 * 2687 + 31 = 69893 T-states, a frame
+DW_AFTER = 9400             # delay loop after the load: 26 * 9400 T-states, 3.5 frames
+
+
+def dawdle_payload(seed):
+    return bytes(c12.tag(a, seed + 2) for a in range(DW_DEST, DW_DEST + 16))
+
+
+def dawdle_block_frames(seed):
+    """Duration in frames of the gap plus the headerless block (pilot, sync, flag + data + parity bits),
+    from the ROM timings: what the program has to wait for the fast-load clock jump to be about zero."""
+    data = bytes([0xFF]) + dawdle_payload(seed)
+    par = 0
+    for b in data:
+        par ^= b
+    ones = sum(bin(b).count('1') for b in data + bytes([par]))
+    bits = 8 * (len(data) + 1)
+    t = DW_GAP_MS * 3500 + DW_NPILOT * 2168 + 667 + 735 + 2 * (ones * 1710 + (bits - ones) * 855)
+    return (t + FRAME // 2) // FRAME
+
+
+def dawdle_waits(tier, seed):
+    """Waits in frames: none, half the block, every frame count from just under to about the block (the
+    BASIC loader's own time and the delay loop's overhead make the clock jump cross zero one to three frames
+    below D, so that these give a jump forwards by under a frame, backwards by under a frame and backwards by
+    one to three frames - measured, see the dw_fast_load_clock_jump_* guards), just over, far over."""
+    D = dawdle_block_frames(seed)
+    if tier == 'quick':
+        return [0, D // 2, D - 3, D - 2, D - 1, D, D + 3, D + 40]
+    return [0, 1, D // 2, D - 5, D - 4, D - 3, D - 2, D - 1, D, D + 1, D + 3, D + 10, D + 40, 2 * D]
+
+
+def dawdle_names(tier, seed):
+    return ['dw-{}-{}-{}'.format(pre, post, k) for k in dawdle_waits(tier, seed) for pre in ('ei', 'di') for post in ('ei', 'di')]
+
+
+def dawdle_program(pre, post, k, npayload):
+    """(program bytes at DW_ORG, stop address)."""
+    p = [0xFB if pre == 'ei' else 0xF3]                         # EI / DI for the duration of the wait
+    if k:
+        p += [0x11, k & 255, k >> 8]                            #      LD DE,k
+        p += [0x01, DW_INNER & 255, DW_INNER >> 8]              # L1   LD BC,inner
+        p += [0x0B, 0x78, 0xB1, 0x20, 0xFB]                     # L2   DEC BC / LD A,B / OR C / JR NZ,L2
+        p += [0x1B, 0x7A, 0xB3, 0x20, 0xF3]                     #      DEC DE / LD A,D / OR E / JR NZ,L1
+    p += [0xDD, 0x21, DW_DEST & 255, DW_DEST >> 8]              #      LD IX,dest
+    p += [0x11, npayload, 0x00]                                 #      LD DE,len
+    p += [0x3E, 0xFF, 0x37]                                     #      LD A,$FF / SCF
+    p += [0xCD, 0x56, 0x05]                                     #      CALL $0556 (LD-BYTES; returns with interrupts enabled)
+    p += [0xFB if post == 'ei' else 0xF3]                       #      EI / DI for the run after the load
+    p += [0x01, DW_AFTER & 255, DW_AFTER >> 8]                  #      LD BC,after
+    p += [0x0B, 0x78, 0xB1, 0x20, 0xFB]                         # L3   DEC BC / LD A,B / OR C / JR NZ,L3
+    return bytes(p), DW_ORG + len(p)
+
+
+def build_dawdle(name, seed, d):
+    _, pre, post, k = name.split('-')
+    k = int(k)
+    payload = dawdle_payload(seed)
+    prog, done = dawdle_program(pre, post, k, len(payload))
+    binf = tools.write_file(name + '.bin', prog + bytes(8), d)
+    tap = os.path.join(d, name + '.tap')
+    r = tools.run_tool('bin2tap', ['-o', DW_ORG, '-c', DW_ORG - 1, '-s', DW_ORG, binf, tap])
+    if r.rc:
+        raise RuntimeError('bin2tap failed for the dawdle tape: {}'.format(r))
+    rom = dict(pilot=2168, sync1=667, sync2=735, zero=855, one=1710, npilot=DW_NPILOT)
+    tzx = tools.write_file(name + '.tzx', tzx_from_tap(tools.read_file(tap), [turbo_block(payload, **rom), turbo_block(b'\x01\x02\x03', **rom)],
+                                                       last_pause=DW_GAP_MS), d)
+    return dict(tape=tzx, start=done, plan=None, machine='48', seed=seed, dawdle=(pre, post, k),
+                regions=[('headerless block', DW_DEST - 16384, payload, None), ('loader program', DW_ORG - 16384, prog, None)])
+
 
 def build_tape(name, seed, d):
     """Returns dict(tape=path, start=address tap2sna must stop at, plan=C12 plan or None, machine, seed, ...)."""
+    if name.startswith('dw-'):
+        return build_dawdle(name, seed, d)
     if name in ('k48', 'k48clear', 'k128'):
         if name == 'k48':
             cfg = dict(c12.DEF48, length=256, stack='end+2')
@@ -574,6 +661,10 @@ def build_tape(name, seed, d):
 OPT_DEFAULT = dict(accelerator='auto', dec_a=3, pause=1, fast_load=1, cmio=0, python=0, polarity=0, first_edge=0)
 OPT_ALTS = dict(accelerator=['none', 'rom', 'speedlock', 'alkatraz,rom'], dec_a=[0, 1, 2], pause=[0], fast_load=[0], cmio=[1], python=[1],
                 polarity=[1], first_edge=[1000])
+# dawdle tapes: python x fast-load x accelerator x cmio.  pause=0 is outside "any tape that loads" (a loader
+# that is not listening when the next block begins only loads from a tape that waits for it), and nothing on
+# these tapes depends on accelerate-dec-a, polarity or first-edge beyond what the other tapes show
+DW_ALTS = dict(accelerator=['none'], fast_load=[0], cmio=[1], python=[1])
 NEUTRAL = ('accelerator', 'dec_a', 'pause', 'python')       # must not change anything at all
 SCRATCH = ('fast_load', 'cmio', 'polarity', 'first_edge')   # may change scratch state only
 OPT_NAMES = dict(accelerator='accelerator', dec_a='accelerate-dec-a', pause='pause', fast_load='fast-load', cmio='cmio', python='python',
@@ -605,6 +696,20 @@ def load_tape(t, o, d):
     if t['machine'] == '128':
         a += ['-c', 'machine=128']
     a += opt_args(o) + [t['tape'], out]
+    jumps = []
+    spy_fl = 'dawdle' in t and o['python'] and o['fast_load']
+    if spy_fl:
+        # vacuity evidence only: how far the clock jumps when the Python LoadTracer fast-loads a non-final block
+        from skoolkit.loadtracer import LoadTracer
+        orig_fl = LoadTracer.fast_load
+
+        def fl(self, simulator):
+            t0 = int(simulator.registers[25])
+            ok = orig_fl(self, simulator)
+            if ok and self.state[3] < self.max_index:
+                jumps.append(self.edges[self.state[3]] - t0)
+            return ok
+        LoadTracer.fast_load = fl
     # tap2sna does not store the simulator's clock in the snapshot (get_state(simulator, False)); the
     # property speaks of the T-state position, so it is read off the simulator by a harness-side wrapper
     cap = {}
@@ -619,6 +724,8 @@ def load_tape(t, o, d):
             r = tools.run_tool('tap2sna', a)
     finally:
         t2s.get_state = orig
+        if spy_fl:
+            LoadTracer.fast_load = orig_fl
     if r.rc or not os.path.isfile(out):
         return None, 'tap2sna failed: {} {}'.format(r.exc, r.err[-200:]), a
     s = Snapshot.get(out)
@@ -628,12 +735,16 @@ def load_tape(t, o, d):
     snap['simulator_T'] = cap.get('T')
     snap['ram'] = bytes(s.ram(-1))
     snap['stopped_at_start'] = 'Simulation stopped (PC at start address)' in r.out
+    if jumps:
+        snap['clock_jump'] = jumps[-1]      # the headerless block's (never a key of a reference snapshot: not compared)
     return snap, r.out, a
 
 
 def loaded_regions(t):
     """[(what, offset into ram(-1), expected bytes, indexes to compare or None)] - the bytes that come
     from the tape's data blocks."""
+    if 'regions' in t:
+        return t['regions']
     if t['plan'] is None:
         return [('turbo block', TURBO_DEST - 16384, t['payload'], None), ('relocated loader', ENTRY - 16384, t['prog'], None)]
     plan = t['plan']
@@ -659,27 +770,29 @@ def full_product():
         yield sum(1 for n in names if o[n] != OPT_DEFAULT[n]), o
 
 
-def tape_plan(tier):
-    """[(tape name, bound description, iterator of option dicts)]"""
+def tape_plan(tier, seed=0):
+    """[(tape name, deviation bound)]"""
     if tier == 'quick':
-        return [(t, 2) for t in ('k48', 'k48clear', 'turbo', 'k128')]
-    return [('turbo', 8), ('k48', 3), ('k48clear', 2), ('k128', 2)]
+        return [(t, 2) for t in ('k48', 'k48clear', 'turbo', 'k128')] + [(t, 2) for t in dawdle_names(tier, seed)]
+    return [('turbo', 8), ('k48', 3), ('k48clear', 2), ('k128', 2)] + [(t, 4) for t in dawdle_names(tier, seed)]
 
 
-def tape_configs(d):
+def tape_configs(d, tname=''):
+    if tname.startswith('dw-'):
+        return [o for k, o in core.deviations(OPT_DEFAULT, DW_ALTS, d)]
     if d >= len(OPT_DEFAULT):
         return [o for k, o in sorted(full_product(), key=lambda x: x[0])]
     return [o for k, o in core.deviations(OPT_DEFAULT, OPT_ALTS, d)]
 
 
-def tape_work(tier):
+def tape_work(tier, seed=0):
     """Work items (tape, reference options, options to compare with it): configurations are grouped by
     the options that may legitimately change scratch state; the group's member with default
     accelerator / dec-a / pause / python is its reference.  Big groups are cut into chunks."""
     work = []
-    for tname, d in tape_plan(tier):
+    for tname, d in tape_plan(tier, seed):
         groups = {}
-        for o in tape_configs(d):
+        for o in tape_configs(d, tname):
             groups.setdefault(tuple(o[k] for k in SCRATCH), []).append(o)
         for key, members in groups.items():
             ref = dict(OPT_DEFAULT, **dict(zip(SCRATCH, key)))
@@ -733,7 +846,14 @@ def run_item(tname, ref_o, others, seed, stats=None, check_ref=True):
         snap, msg, argv = load_tape(t, o, d)
         if stats is not None:
             stats.transitions += 1
-            stats.counters['tape_' + tname] += 1
+            stats.counters['tape_' + tname.split('-')[0]] += 1
+            if 'dawdle' in t:
+                pre, post, k = t['dawdle']
+                stats.counters['dw_wait_{}_after_{}'.format(pre, post)] += 1
+                if snap is not None and 'clock_jump' in snap:
+                    j = snap['clock_jump']
+                    stats.counters['dw_fast_load_clock_jump_' + ('forwards' if j > 0 else 'backwards_within_a_frame' if j > -FRAME else
+                                                                 'backwards_beyond_a_frame')] += 1
             for k in o:
                 if o[k] != OPT_DEFAULT[k]:
                     stats.counters['opt_{}'.format(k)] += 1
@@ -774,7 +894,7 @@ def run_item(tname, ref_o, others, seed, stats=None, check_ref=True):
 
 
 def _tape_shard(stats, shard, nshards, tier, seed):
-    for i, (tname, ref_o, others, first) in core.shard_iter(tape_work(tier), shard, nshards):
+    for i, (tname, ref_o, others, first) in core.shard_iter(tape_work(tier, seed), shard, nshards):
         for o, kind, det in run_item(tname, ref_o, others, seed, stats, first):
             tags = {'level': 'tape', 'tape': tname, 'kind': kind, 'fields': sorted({x.split(': ')[-1].split('=')[0].split(' ')[0] for x in det})}
             tags.update(o)
@@ -806,25 +926,35 @@ def run(tier, seed):
         rule='loop level: each of the {} ACCELERATORS rows x counter 0..255 x next-edge distance ({}) x EAR register bit x tape polarity x carry, '
              'each run 4 ways (Python/C x accelerator on/off); DEC A: 256 A x carry x accelerate-dec-a 0..3 x JR/JP form x IFF 0/1, Python and C; '
              'tape level: tapes {} x simulated-LOAD options ({}) over accelerator {{auto,none,rom,speedlock,"alkatraz,rom"}}, '
-             'accelerate-dec-a 0..3, pause, fast-load, cmio, python, polarity, first-edge {{0,1000}}.  states = distinct final (PC, counter, T, '
+             'accelerate-dec-a 0..3, pause, fast-load, cmio, python, polarity, first-edge {{0,1000}}; dawdle tapes (bin2tap loader + program that '
+             'waits k frames in a delay loop, loads a 16-byte headerless ROM-timed block with CALL $0556 - not the last block on the tape - and runs 3.5 '
+             'more frames): wait k in {} frames (block + gap last {} frames) x interrupts enabled/disabled during the wait x enabled/disabled '
+             'after the load, each under {} over python, fast-load, accelerator {{auto,none}}, cmio.  states = distinct final (PC, counter, T, '
              'edge index) per row / distinct final snapshots; non-trivial = loop case in which the accelerator fired for at least one counter value, '
              'every DEC A case, every tape load'.format(
                  len(ACCELERATORS), '{k*loop_time+e: k 0..3, e -1,0,1}, far; EAR phase = register bit, or tape polarity for the loops without one' if tier == 'quick' else
                  'every value -1..2*loop_time+1, {3*loop_time+e}, far; EAR register bit x tape polarity',
-                 [t for t, d in tape_plan(tier)], 'deviations d <= 2 from the defaults' if tier == 'quick' else
-                 'full product on turbo, deviations d <= 3 on k48, d <= 2 on k48clear and k128'),
+                 [t for t, d in tape_plan(tier) if not t.startswith('dw-')], 'deviations d <= 2 from the defaults' if tier == 'quick' else
+                 'full product on turbo, deviations d <= 3 on k48, d <= 2 on k48clear and k128',
+                 dawdle_waits(tier, seed), dawdle_block_frames(seed), 'option deviations d <= 2' if tier == 'quick' else 'the full option product'),
         exhaustive=True,
         bound='loop level: complete product (finite); tape level: ' + ('option deviations d <= 2 on 4 tapes' if tier == 'quick' else
-                                                                         'full option product (1280 configurations) on the turbo tape, d <= 3 on k48, d <= 2 on k48clear and k128'),
+                                                                         'full option product (1280 configurations) on the turbo tape, d <= 3 on k48, d <= 2 on k48clear and k128') +
+              '; {} dawdle tapes (complete product wait x interrupts during x interrupts after) x '.format(len(dawdle_names(tier, seed))) +
+              ('option deviations d <= 2 over 4 options' if tier == 'quick' else 'all 16 combinations of 4 options'),
         assumptions=[
             'loops are entered at their first instruction only, with the exit paths (wild-card bytes, RET targets) leading to the stop address - the phase real loaders are in',
             'every loop-level run has a horizon of {} T-states (LoadTracer timeout) and a 20 s watchdog'.format(HORIZON_T),
             'tape level always passes --start (documented stop rule) and the same finish-tape setting',
             'IN r,(C) is traced at loop level (tap2sna does this only with in-flags=4), otherwise the activision row could never fire',
+            'dawdle tapes are not run with pause=0: a loader that is not listening when the next block begins only loads from a tape that waits for it '
+            '(outside "any tape that loads"); accelerate-dec-a, polarity and first-edge are not varied on them',
         ],
         required_guards=['acc_' + n for n in sorted(ACCELERATORS)] + ['dec_a_jr', 'dec_a_jp', 'dec_a_interrupt_inside_loop'] +
                         ['tape_k48', 'tape_k48clear', 'tape_turbo', 'tape_k128', 'opt_accelerator', 'opt_dec_a', 'opt_pause', 'opt_fast_load', 'opt_cmio',
-                         'opt_python', 'opt_polarity', 'opt_first_edge'],
+                         'opt_python', 'opt_polarity', 'opt_first_edge', 'tape_dw', 'dw_wait_ei_after_ei', 'dw_wait_ei_after_di', 'dw_wait_di_after_ei',
+                         'dw_wait_di_after_di', 'dw_fast_load_clock_jump_forwards', 'dw_fast_load_clock_jump_backwards_within_a_frame',
+                         'dw_fast_load_clock_jump_backwards_beyond_a_frame'],
     )
     return stats, meta
 
